@@ -416,6 +416,7 @@ def c12(ctx):
     RG.rule_from_impls(ctx, prog)
     roots = [b for b in all_roots(prog) if "histogram::strategies" in b.key or "GridBuilder" in b.key]
     RL.rule_r8(ctx, prog, roots)
+    RH.rule_gridbuilder(ctx, prog)
     return dict(
         level="other",
         explanation="(R17) in EquiSpaced the edge whose comparison with max ends the counting in n_bins() and the edge pushed by build() are "
